@@ -156,8 +156,8 @@ func blameCorrespondence(r *Run, rng *rand.Rand, thorough bool) {
 			}
 			ownShare = new(big.Int).Mod(new(big.Int).Sub(refKey.Xi, sum), q)
 			if nd.Err != nil {
-				if nd.Err.Round() != 3 {
-					continue // rejected earlier (ValidateBasic at delivery): not a round-3 verdict
+				if nd.Err.Round() != 3 || refusedBeforeStore(nd.Err) {
+					continue // rejected at delivery (ValidateBasic): not a round-3 verdict
 				}
 				goRes = "ok culprits=" + culpritSet(net, nd.Err)
 			} else if len(nd.Ends) == 1 {
